@@ -27,6 +27,11 @@ def run(tier):
         # ---- values x renderings
         vals = [G.gen_value(rng, cfg, depth=rng.choice([2, 3, 4, 5, 8]) if rng.random() < 0.9 else 8, width=rng.choice([3, 5])) for _ in range(nvals)]
         docs = [G.render_doc(rng, v, cfg, rich=rng.random() < 0.7) for v in vals]
+        # the list-based model computes positions by walking the remaining input (quadratic in the document size)
+        cap = 25000 if tier == "quick" else 150000
+        keep = [i for i, d in enumerate(docs) if len(d) <= cap]
+        vals = [vals[i] for i in keep]
+        docs = [docs[i] for i in keep]
         lines = K.read_lines(docs)
         impl, model, diffs, crashes, mcr = K.correspond(cfg, lines)
         rep.count("renderings/" + cfg, len(docs))
